@@ -1,5 +1,7 @@
 import MidnightZK.Proofs.C08.Expose
 import MidnightZK.Proofs.C08.BigBound
+import MidnightZK.Proofs.C08.Verify
+import MidnightZK.Proofs.C08.ScalarLong
 /-!
 # C08 — the off-circuit public-input encoding is exactly what the circuit binds
 
@@ -338,5 +340,232 @@ theorem edits_rejected (q : Nat) (hq : 1 < q) (cs : List Nat) (hcs : ∀ x ∈ c
     · rw [Nat.mod_eq_of_lt (by omega)] at this; omega
 
 example : rejectedEdits 11 ((Chip.constrainAll {} [3, 10]).binds) [3, 10] = 2 := by decide
+
+/-! ## The verifier insists on the recorded number of raw public inputs -/
+
+/-- `verifier_insists_on_count` (the property's last sentence, `zk_stdlib::verify`): if the key
+was produced by `setup_vk` for a relation exposing `steps` and the length check of `verify` lets
+a raw vector through, then its length is the length of `format_instance` of the exposed values,
+which is the sum of the type-determined lengths `encLen` of the values exposed on the plain
+column. -/
+theorem verifier_insists_on_count (steps : List (Path × Val)) (vk : MidnightVK)
+    (hvk : setupVk steps = some vk) (hag : ∀ s ∈ steps, cells s.1 s.2 = encode s.2)
+    (pi : List Nat) (hacc : verifyGuard vk pi = true) :
+    ∃ pl cm, formatInstance steps = some (pl, cm) ∧ pi.length = pl.length ∧
+      plainLen steps = some pi.length := by
+  simp only [setupVk, Option.map_eq_some_iff] at hvk
+  obtain ⟨c, hc, rfl⟩ := hvk
+  obtain ⟨pl, cm, hf, h1, _⟩ := nb_public_inputs_eq steps c hc hag
+  rw [verifyGuard_iff] at hacc
+  have hl : pi.length = pl.length := by rw [hacc, ← h1]
+  exact ⟨pl, cm, hf, hl, by rw [hl]; exact formatInstance_plainLen steps pl cm hf⟩
+
+/-- Non-vacuity: three native values, a key recording 3; vectors of length 2 and 4 are refused. -/
+example : (setupVk [(.assign, .native 7), (.assign, .native 11), (.assign, .native 0)]).map
+    (fun vk => (vk.nbPublicInputs, verifyGuard vk [7, 11, 0], verifyGuard vk [7, 11],
+      verifyGuard vk [7, 11, 0, 0])) = some (3, true, false, false) := by decide +kernel
+
+/-- The same for `zk_stdlib::batch_verify`: every (key, raw vector) pair of an accepted batch has
+the recorded length (and the three slices have the same length). -/
+theorem batch_verifier_insists_on_count (vks : List MidnightVK) (pis : List (List Nat)) (n : Nat)
+    (hacc : batchVerifyGuard vks pis n = true) :
+    pis.length = vks.length ∧ n = vks.length ∧
+      ∀ i, (h₁ : i < vks.length) → (h₂ : i < pis.length) → pis[i].length = vks[i].nbPublicInputs := by
+  rw [batchVerifyGuard_iff] at hacc
+  obtain ⟨h1, h2, h3⟩ := hacc
+  refine ⟨h1, h2, fun i hi₁ hi₂ => ?_⟩
+  exact h3 (vks[i], pis[i]) (by
+    rw [List.mem_iff_getElem]
+    exact ⟨i, by simp only [List.length_zip]; omega, by simp⟩)
+
+example : batchVerifyGuard [⟨3⟩, ⟨0⟩] [[1, 2, 3], []] 2 = true ∧
+    batchVerifyGuard [⟨3⟩, ⟨0⟩] [[1, 2], []] 2 = false ∧
+    batchVerifyGuard [⟨3⟩] [[1, 2, 3], []] 1 = false ∧
+    batchVerifyGuard [⟨3⟩] [[1, 2, 3]] 2 = false := by decide
+
+/-- The two entry points apply the same check (the seeded defect C08-2 made them disagree). -/
+theorem verify_batch_guards_agree (vk : MidnightVK) (pi : List Nat) :
+    batchVerifyGuard [vk] [pi] 1 = verifyGuard vk pi := by
+  simp [batchVerifyGuard, verifyGuard]
+
+/-- `verify_ok_iff`: for a key set up for `steps`, `verify` answers `Ok` on a raw vector `pi` with
+a proof generated on the raw vector `proved` iff both are `format_instance` of the exposed
+values (model of the PLONK layer: transcripts agree and the zero-padded instance satisfies the
+copy constraints). -/
+theorem verify_ok_iff (steps : List (Path × Val)) (c : Chip) (vk : MidnightVK)
+    (hc : exposeAll {} steps = some c) (hvk : setupVk steps = some vk)
+    (hag : ∀ s ∈ steps, cells s.1 s.2 = encode s.2) (proved pi : List Nat) :
+    ∃ pl cm, formatInstance steps = some (pl, cm) ∧
+      (verifyVerdict vk c.binds proved pi = .ok ↔ pi = pl ∧ proved = pl) := by
+  simp only [setupVk, hc, Option.map_some, Option.some.injEq] at hvk
+  subst hvk
+  obtain ⟨pl, cm, hf, h1, _⟩ := nb_public_inputs_eq steps c hc hag
+  refine ⟨pl, cm, hf, ?_⟩
+  rw [verifyVerdict_ok_iff, verifyGuard_iff, holdsB_iff]
+  constructor
+  · rintro ⟨hlen, rfl, hh⟩
+    obtain ⟨pl', cm', hf', hiff⟩ := instance_satisfies_iff steps c hc hag proved hlen
+    rw [hf] at hf'
+    obtain ⟨rfl, rfl⟩ : pl = pl' ∧ cm = cm' := by simpa using hf'
+    exact ⟨hiff.mp hh, hiff.mp hh⟩
+  · rintro ⟨rfl, rfl⟩
+    obtain ⟨pl', cm', hf', hiff⟩ := instance_satisfies_iff steps c hc hag proved h1.symm
+    rw [hf] at hf'
+    obtain ⟨rfl, rfl⟩ : proved = pl' ∧ cm = cm' := by simpa using hf'
+    exact ⟨h1.symm, rfl, hiff.mpr rfl⟩
+
+example : verifyVerdict ⟨3⟩ ((Chip.constrainAll {} [7, 11, 0]).binds) [7, 11, 0] [7, 11, 0] = .ok ∧
+    verifyVerdict ⟨3⟩ ((Chip.constrainAll {} [7, 11, 0]).binds) [7, 11] [7, 11] = .invalidInstances ∧
+    verifyVerdict ⟨3⟩ ((Chip.constrainAll {} [7, 11, 0]).binds) [7, 11, 0] [7, 11, 1] = .rejected := by
+  decide
+
+/-! ### Why the comparison must be exact: zero padding of the instance column -/
+
+/-- `instance_zero_padding`: the PLONK layer cannot tell a raw vector from the same vector followed
+by zeros — the copy constraints read rows beyond the vector as zero (`Holds`), and the instance
+evaluation `Σ instᵢ·lᵢ(x)` computed by `verify_algebraic_constraints` is the same. -/
+theorem instance_zero_padding (binds : List (Nat × Nat)) (inst : List Nat) (k : Nat) :
+    (Holds binds (inst ++ List.replicate k 0) ↔ Holds binds inst) ∧
+    ∀ q ls, instanceEval q (inst ++ List.replicate k 0) ls = instanceEval q inst ls :=
+  ⟨holds_append_zeros binds inst k, fun q ls => by
+    unfold instanceEval; rw [innerProduct_append_zeros]⟩
+
+/-- …but the transcript does tell them apart (the length is absorbed first), so a proof generated
+for one is not a proof for the other: a truncated statement needs a prover who runs the protocol
+on the truncated vector. -/
+theorem absorb_distinguishes_length (a b : List Nat) :
+    absorbInstance a = absorbInstance b ↔ a = b :=
+  absorbInstance_inj a b
+
+example : absorbInstance [7, 11] ≠ absorbInstance [7, 11, 0] := by decide
+
+/-- `exact_count_needed`: for a relation whose formatted instance ends with a zero
+(`pl = pl' ++ [0]`: the last exposed raw value is zero), the truncated vector `pl'` satisfies the
+circuit's copy constraints as well and is a different vector; the weaker check
+`pi.len() > nb ⇒ reject` (seeded defect C08-2) lets both through, the exact check of the code only
+`pl`. Hence the exposure binds a unique vector only together with the exact comparison. -/
+theorem exact_count_needed (steps : List (Path × Val)) (c : Chip) (vk : MidnightVK)
+    (hc : exposeAll {} steps = some c) (hvk : setupVk steps = some vk)
+    (hag : ∀ s ∈ steps, cells s.1 s.2 = encode s.2) (pl' cm : List Nat)
+    (hf : formatInstance steps = some (pl' ++ [0], cm)) :
+    Holds c.binds (pl' ++ [0]) ∧ Holds c.binds pl' ∧ pl' ≠ pl' ++ [0] ∧
+    weakGuard vk pl' = true ∧ weakGuard vk (pl' ++ [0]) = true ∧
+    verifyGuard vk pl' = false ∧ verifyGuard vk (pl' ++ [0]) = true := by
+  simp only [setupVk, hc, Option.map_some, Option.some.injEq] at hvk
+  subst hvk
+  obtain ⟨pl, cm₂, hf₂, h1, _⟩ := nb_public_inputs_eq steps c hc hag
+  rw [hf] at hf₂
+  obtain ⟨rfl, rfl⟩ : pl' ++ [0] = pl ∧ cm = cm₂ := by simpa using hf₂
+  obtain ⟨pl₃, cm₃, hf₃, hiff⟩ := instance_satisfies_iff steps c hc hag (pl' ++ [0]) h1.symm
+  rw [hf] at hf₃
+  obtain ⟨rfl, rfl⟩ : pl' ++ [0] = pl₃ ∧ cm = cm₃ := by simpa using hf₃
+  have hfull : Holds c.binds (pl' ++ [0]) := hiff.mpr rfl
+  have hlen : c.nbPublicInputs = pl'.length + 1 := by rw [h1]; simp
+  refine ⟨hfull, (holds_append_zeros c.binds pl' 1).mp hfull, ?_, ?_, ?_, ?_, ?_⟩
+  · intro h
+    have := congrArg List.length h
+    simp at this
+  · rw [weakGuard_iff]; simp only []; omega
+  · rw [weakGuard_iff]; simp only [List.length_append, List.length_singleton]; omega
+  · rw [← Bool.not_eq_true, verifyGuard_iff]; simp only []; omega
+  · rw [verifyGuard_iff]; simp only [List.length_append, List.length_singleton]; omega
+
+/-- Non-vacuity (the relation of `seeded/C08-2/demo.rs` with witness `(7, 11, 0)`). -/
+example : formatInstance [(.assign, .native 7), (.assign, .native 11), (.assign, .native 0)]
+    = some ([7, 11] ++ [0], []) := by decide +kernel
+
+/-! ### Jubjub scalars: the sharpest true statement (every bit-vector length) -/
+
+/-- `cells_eq_encode_jscalar`: for a canonical Jubjub scalar `s < r` held by an in-circuit bit
+vector of ANY length `n ≥ 1` that holds it (`assign`: 252, `assign_fixed`: minimal, `convert`:
+255, `scalar_from_le_bytes`: 8·bytes), the exposure binds the off-circuit encoding `[s]` followed
+by exactly `⌈n/254⌉ − 1` rows holding zero. This replaces the side condition of
+`cells_eq_encode` for Jubjub scalars by an unconditional description. -/
+theorem cells_eq_encode_jscalar (path : Path) (s : Nat) (hs : s < Gen.jubjubScalarModulus)
+    (hpos : 1 ≤ scalarBitLen path s) (hfit : s < 2 ^ scalarBitLen path s) :
+    ∃ e, encode (.jscalar s) = some e ∧ e = [s] ∧
+      cells path (.jscalar s) =
+        some (e ++ List.replicate (ceilDiv (scalarBitLen path s) scalarBatch - 1) 0) := by
+  obtain ⟨h1, h2⟩ := cells_jscalar path s hs hpos hfit
+  exact ⟨[s], h1, rfl, h2⟩
+
+example : cells (.derived 64) (.jscalar 5) = some ([5] ++ [0, 0]) := by decide +kernel
+
+/-- `jscalar_expose_agrees_iff`: the exposure of a canonical Jubjub scalar binds exactly the
+off-circuit encoding IF AND ONLY IF its bit vector fits one batch of `F::NUM_BITS − 1 = 254` bits
+(so: always for `assign`/`assign_as_public_input`/`assign_fixed` and for ≤ 31 bytes; never for
+`convert` (255 bits) and for ≥ 32 bytes — the recorded finding `jscalar-exposure:bits>252`). -/
+theorem jscalar_expose_agrees_iff (path : Path) (s : Nat) (hs : s < Gen.jubjubScalarModulus)
+    (hpos : 1 ≤ scalarBitLen path s) (hfit : s < 2 ^ scalarBitLen path s) :
+    cells path (.jscalar s) = encode (.jscalar s) ↔ scalarBitLen path s ≤ scalarBatch := by
+  obtain ⟨h1, h2⟩ := cells_jscalar path s hs hpos hfit
+  have hB : 1 ≤ scalarBatch := by unfold scalarBatch; have := native_facts; omega
+  rw [h1, h2, ← ceilDiv_le_one_iff _ _ hB hpos]
+  constructor
+  · intro h
+    have := congrArg (fun o => (o.getD []).length) h
+    simpa using this
+  · intro h
+    rw [h]; rfl
+
+/-- `jscalar_long_satisfied_but_miscounted`: what the finding amounts to. For a canonical scalar
+with a long bit vector the honest raw vector `[s]` DOES satisfy the copy constraints (the extra
+bound rows hold zero, and rows beyond the instance vector are zero), but the counter recorded in
+the key is `⌈n/254⌉ ≠ 1 = |format_instance|`, so `zk_stdlib::verify` refuses every honest proof
+with `InvalidInstances`. A repair that exposes only the first `NUM_BITS_SUBGROUP` bits and
+constrains the remaining bits to zero changes no accepted statement. -/
+theorem jscalar_long_satisfied_but_miscounted (path : Path) (s : Nat)
+    (hs : s < Gen.jubjubScalarModulus) (hpos : 1 ≤ scalarBitLen path s)
+    (hfit : s < 2 ^ scalarBitLen path s) (c : Chip)
+    (hc : exposeAll {} [(path, .jscalar s)] = some c) (hp : path ≠ .committed) :
+    Holds c.binds [s] ∧ c.nbPublicInputs = ceilDiv (scalarBitLen path s) scalarBatch ∧
+    (scalarBatch < scalarBitLen path s → verifyGuard ⟨c.nbPublicInputs⟩ [s] = false) := by
+  obtain ⟨_, h2⟩ := cells_jscalar path s hs hpos hfit
+  have hB : 1 ≤ scalarBatch := by unfold scalarBatch; have := native_facts; omega
+  simp only [exposeAll, exposeStep, h2, Option.map_some, hp, if_false, Option.bind_some,
+    Option.some.injEq] at hc
+  subst hc
+  have hstep := ceilDiv_step (scalarBitLen path s) scalarBatch hB hpos
+  have hlen : (Chip.constrainAll {} ([s] ++ List.replicate
+      (ceilDiv (scalarBitLen path s) scalarBatch - 1) 0)).nbPublicInputs =
+      ceilDiv (scalarBitLen path s) scalarBatch := by
+    have := (constrainAll_spec ([s] ++ List.replicate
+      (ceilDiv (scalarBitLen path s) scalarBatch - 1) 0) {}).1
+    simp only [Chip.nbPublicInputs, this, List.length_append, List.length_singleton,
+      List.length_replicate]
+    omega
+  refine ⟨?_, hlen, ?_⟩
+  · have hself : ∀ cs : List Nat, Holds (Chip.constrainAll {} cs).binds cs := fun cs =>
+      (expose_binds cs cs).mpr (fun i hi => by simp [List.getD, List.getElem?_eq_getElem hi])
+    exact (holds_append_zeros _ [s] _).mp (hself _)
+  · intro hlong
+    rw [hlen, ← Bool.not_eq_true, verifyGuard_iff]
+    have hne : ¬ (ceilDiv (scalarBitLen path s) scalarBatch - 1 = 0) := fun h =>
+      absurd ((ceilDiv_le_one_iff _ _ hB hpos).mp h) (by omega)
+    simp only [List.length_singleton]
+    omega
+
+example : (exposeAll {} [(.derived 32, .jscalar 1)]).map
+    (fun c => (holdsB c.binds [1], c.nbPublicInputs)) = some (true, 2) := by decide +kernel
+
+/-! ### BigUint: the declared bound is checked against the derived one -/
+
+/-- `biguint_declared_bound_checked`: `BigUintGadget::constrain_as_public_input(x, nb_bits)`
+refuses (`Err(Synthesis)`) every declared bound other than the one derived from the limb bounds
+of `x` (`AssignedBigUint::nb_bits`); for `x = assign_biguint(_, nb)` the derived bound is `nb`
+itself (for every `nb ≥ 1` and the limb size of `biguint/types.rs`), so the exposure goes ahead
+iff the declared bound is the assignment bound — the bound the verifier must call the
+off-circuit encoder with (`biguint_expose_agrees`). -/
+theorem biguint_declared_bound_checked (nb declared : Nat) (hnb : 1 ≤ nb) :
+    bigExposeGuard Gen.bigLog2Base (assignBounds Gen.bigLog2Base nb) declared = true ↔
+      declared = nb := by
+  have f := native_facts
+  unfold bigExposeGuard
+  rw [nbBitsOf_assignBounds _ nb f.2.2.2.2.2.2.2.2.1 hnb]
+  simp
+
+example : bigExposeGuard 96 (assignBounds 96 97) 97 = true ∧
+    bigExposeGuard 96 (assignBounds 96 97) 192 = false ∧
+    bigExposeGuard 96 (assignBounds 96 97) 96 = false := by decide +kernel
 
 end MidnightZK.C08
